@@ -131,6 +131,12 @@ pub fn oracle(cfg: &Cfg, run: &Run) -> Vec<(String, String)> {
             if s.events[j].as_deref() == Some("divergence") && v.is_some() && !row.diverging { out.push(("schema.event".into(), format!("draw {k}: divergence statistic {n} present on a non-divergent draw"))); }
         }
         let present = |n: &str| row.cells.iter().find(|c| c.0 == n).map(|c| c.1.is_some()).unwrap_or(false);
+        // a statistic governed by a store_* option is present exactly when its option is on
+        for (name, on) in [("gradient", cfg.flag(0)), ("unconstrained_draw", cfg.flag(1)), ("transformed_position", cfg.flag(2)), ("transformed_gradient", cfg.flag(2))] {
+            if s.names.iter().any(|n| n == name) && present(name) != on && cfg.dim > 0 {
+                out.push(("schema.option_presence".into(), format!("draw {k}: statistic {name} present = {} but its store option is {} (preset {})", present(name), if on { "on" } else { "off" }, cfg.preset)));
+            }
+        }
         if row.diverging != present("divergence_draw") || row.diverging != present("divergence_message") { out.push(("schema.event".into(), format!("draw {k}: diverging={} but divergence_draw/message presence {}/{}", row.diverging, present("divergence_draw"), present("divergence_message")))); }
         if let Some(p) = prev_draw { if row.draw != p + 1 { out.push(("schema.draw_counter".into(), format!("draw statistic went {p} -> {}", row.draw))); } }
         prev_draw = Some(row.draw);
